@@ -81,6 +81,17 @@ def build_pool(seed, k):
             fixed.append(call('eu.vat', 'validate', cc + v2))
             fixed.append(call('vatin', 'validate', cc + v2))
             fixed.append(call('eu.vat', 'guess_country', v2))
+    # dispatchers: alias and non-member prefixes that must keep being rejected / accepted whatever was cached before
+    for cc, mn in [('GB', 'gb.vat'), ('XI', 'gb.vat'), ('UK', 'gb.vat'), ('EL', 'gr.vat'), ('GR', 'gr.vat'), ('NO', 'no.mva'), ('CH', 'ch.vat'),
+                   ('US', 'us.ein'), ('EU', 'eu.oss'), ('IM', 'eu.oss'), ('XX', 'nl.btw'), ('IS', 'is_.vsk'), ('IN', 'in_.gstin')]:
+        for v in gen.pool(mn)[:2]:
+            v2 = v[2:] if v[:2] == cc else v
+            for wm in ('eu.vat', 'vatin'):
+                fixed.append(call(wm, 'validate', cc + v2))
+                fixed.append(call(wm, 'is_valid', cc.lower() + ' ' + v2))
+    for cc in ['GB', 'NL', 'XX', 'NO', 'ME', 'BE', 'ES', 'DE']:
+        for v in [x for x in gen.pool('iban') if x[:2] in ('NL', 'NO', 'BE', 'ES', 'ME', 'GB', 'DE')][:6]:
+            fixed.append(call('iban', 'validate', cc + v[2:]))
     for name, m in mods.items():
         p = gen.pool(name)
         if not p:
